@@ -42,7 +42,7 @@ from vlib.oracles import quat_to_mat, loguniform, fd_jac, compare, dense
 INTERPOLATIONS = (("Quaternion", 1), ("Quaternion", 2), ("Quaternion", 3), ("SE3", 1),
                   ("R12", 1), ("R12", 2), ("R12", 3))
 CONSTRAINT_SETS = (None, (1, 2), (0, 1, 2), (3,), (4, 5), (0, 1, 2, 3, 4, 5))
-REFERENCES = ("straight", "arc", "helix", "frenet")
+REFERENCES = ("straight", "arc", "helix", "frenet", "graded")
 MATERIALS = ("Simo1986", "Harsch2021")
 PREFIXES = (None, "point", "body")
 
@@ -288,6 +288,13 @@ def _reference(spec, Rod, rng, L):
     info = {"ref": ref}
     if ref == "straight":
         Q = Rod.straight_configuration(nel, L, r_OP0=r0, A_IB0=A0)
+        return np.asarray(Q, dtype=float), info
+    if ref == "graded":
+        # straight, untwisted, but NOT parametrised by arc length: the elements have different reference lengths (mesh grading)
+        a = float(rng.uniform(0.5, 3.0)) * (1.0 if rng.random() < 0.5 else -0.25)
+        info["grading"] = a
+        Q = Rod.pose_configuration(nel, lambda xi: np.array([L * (xi + a * xi * xi) / (1.0 + a), 0.0, 0.0]), lambda xi: np.eye(3),
+                                   xi1=1.0, r_OP0=r0, A_IB0=A0)
         return np.asarray(Q, dtype=float), info
     # total turning angle: at most ~1.2 rad between neighbouring nodes
     theta = float(rng.uniform(0.3, min(4.5, 1.2 * (nn - 1))))
